@@ -92,6 +92,11 @@ func one(r *rep.Report, codec p9p.Codec, fc *p9p.Fcall, wf bool) {
 		dec = sx.L(sx.Sym("ok"), wiregen.FcallSexp(&back))
 	}
 	r.Case(c, sx.L(sx.B(bs), sx.I(int64(size)), dec), "enc:"+fc.Type.String(), true)
+	// the same message in pointer form must encode to the same bytes with the same size
+	pf := &p9p.Fcall{Type: fc.Type, Tag: fc.Tag, Message: wiregen.Pointer(fc.Message)}
+	if pbs, perr := codec.Marshal(pf); perr != nil || !bytes.Equal(pbs, bs) || codec.Size(pf) != size {
+		r.Fail("codec."+fc.Type.String()+".pointer-form", fmt.Sprintf("%v passed as a pointer: Marshal/Size differ from the value form (%d bytes, size %d vs %d bytes, size %d; err %v)", fc.Type, len(pbs), codec.Size(pf), len(bs), size, perr), c, nil)
+	}
 	if !wf {
 		return
 	}
